@@ -393,7 +393,276 @@ theorem parseSen_writeSen (lay : Layout) (hl : lay.WsOnly) (j : J) (hj : TextOk 
   unfold parseSen writeSen parseSenChars
   simp only [String.toList_ofList]
   have hlen := needS_le_length lay j hj 0
-  have := parseSenValue_write lay hl j hj 0 ((writeSenV lay 0 j).length + 1) [] [] (by simp) (by omega) RestDelim_nil
+  have := parseSenValue_write lay hl j hj 0 (2 * (writeSenV lay 0 j).length + 1) [] [] (by simp) (by omega) RestDelim_nil
+  simp only [List.nil_append, List.append_nil] at this
+  simp [this, skipSep]
+
+/-! ### everything JSON is SEN: the SEN reader reads what the JSON writer wrote -/
+
+theorem writeV_head_sen (lay : Layout) (d : Nat) (j : J) (hj : TextOk j = true) :
+    ∃ c tl, writeV lay d j = c :: tl ∧ isSep c = false ∧ (c == ']') = false := by
+  have hnum : ∀ c, (isDig c = true ∨ c = '-') → isSep c = false ∧ (c == ']') = false := by
+    intro c hc
+    have hn : isNumChar c = true := by
+      rcases hc with hd | rfl
+      · exact isDig_isNumChar c hd
+      · decide
+    obtain ⟨n1, _, _, _, _, n6, _, _⟩ := notDelim c (isNumChar_notDelim c hn)
+    exact ⟨n1, n6⟩
+  cases j with
+  | null => exact ⟨'n', _, rfl, by decide, by decide⟩
+  | bool b => cases b <;> exact ⟨_, _, rfl, by decide, by decide⟩
+  | int i =>
+    obtain ⟨c, tl, h, hc⟩ := intChars_head i
+    exact ⟨c, tl, by simp [writeV, h], hnum c hc⟩
+  | flo t =>
+    simp only [TextOk] at hj
+    obtain ⟨_, c, tl, h, hc⟩ := validFlo_head _ hj
+    exact ⟨c, tl, by simp [writeV, h], hnum c hc⟩
+  | str s => exact ⟨'"', _, rfl, by decide, by decide⟩
+  | time t => simp [TextOk] at hj
+  | arr xs => cases xs <;> exact ⟨'[', _, rfl, by decide, by decide⟩
+  | obj kvs =>
+    cases kvs with
+    | nil => exact ⟨'{', _, rfl, by decide, by decide⟩
+    | cons kv kvs => obtain ⟨k, v⟩ := kv; exact ⟨'{', _, rfl, by decide, by decide⟩
+
+theorem RestDelim_ws_then (ws : List Char) (c : Char) (tl : List Char) (hws : ws.all isWs = true)
+    (hc : isDelim c = true) : RestDelim (ws ++ c :: tl) := by
+  cases ws with
+  | nil => exact RestDelim_cons c tl hc
+  | cons w ws =>
+    simp only [List.all_cons, Bool.and_eq_true] at hws
+    exact RestDelim_cons w _ (isWs_isDelim w hws.1)
+
+theorem RestDelim_writeRestL (lay : Layout) (hl : lay.WsOnly) (d : Nat) (xs : List J) (rest : List Char) :
+    RestDelim (writeRestL lay d xs ++ rest) := by
+  cases xs with
+  | nil =>
+    simp only [writeRestL, List.append_assoc, List.cons_append, List.nil_append]
+    exact RestDelim_ws_then _ _ _ (hl.1 d) (by decide)
+  | cons y ys => simp only [writeRestL, List.cons_append]; exact RestDelim_cons _ _ (by decide)
+
+theorem RestDelim_writeRestM (lay : Layout) (hl : lay.WsOnly) (d : Nat) (kvs : Members) (rest : List Char) :
+    RestDelim (writeRestM lay d kvs ++ rest) := by
+  cases kvs with
+  | nil =>
+    simp only [writeRestM, List.append_assoc, List.cons_append, List.nil_append]
+    exact RestDelim_ws_then _ _ _ (hl.1 d) (by decide)
+  | cons kv kvs => obtain ⟨k, v⟩ := kv; simp only [writeRestM, List.cons_append]; exact RestDelim_cons _ _ (by decide)
+
+theorem all_sep_comma_nl (lay : Layout) (hl : lay.WsOnly) (d : Nat) : (',' :: lay.nl d).all isSep = true := by
+  simp only [List.all_cons, Bool.and_eq_true]
+  exact ⟨by decide, all_ws_sep _ (hl.1 d)⟩
+
+mutual
+theorem parseSenValue_writeV (lay : Layout) (hl : lay.WsOnly) : (j : J) → TextOk j = true →
+    ∀ (d fuel : Nat) (ws rest : List Char), ws.all isSep = true → needS j ≤ fuel → RestDelim rest →
+    parseSenValue fuel (ws ++ (writeV lay d j ++ rest)) = .ok (j, rest)
+  | .null, _, d, fuel, ws, rest, hws, hf, hr => by
+      obtain ⟨f, rfl⟩ : ∃ f, fuel = f + 1 := ⟨fuel - 1, by simp [needS] at hf; omega⟩
+      exact parseSenValue_tok f ws kwNull rest _ hws (by decide) (by decide) hr (by simp [tokValue])
+  | .bool true, _, d, fuel, ws, rest, hws, hf, hr => by
+      obtain ⟨f, rfl⟩ : ∃ f, fuel = f + 1 := ⟨fuel - 1, by simp [needS] at hf; omega⟩
+      exact parseSenValue_tok f ws kwTrue rest _ hws (by decide) (by decide) hr (by simp [tokValue, kwTrue, kwNull])
+  | .bool false, _, d, fuel, ws, rest, hws, hf, hr => by
+      obtain ⟨f, rfl⟩ : ∃ f, fuel = f + 1 := ⟨fuel - 1, by simp [needS] at hf; omega⟩
+      exact parseSenValue_tok f ws kwFalse rest _ hws (by decide) (by decide) hr (by simp [tokValue, kwFalse, kwTrue, kwNull])
+  | .int i, _, d, fuel, ws, rest, hws, hf, hr => by
+      obtain ⟨f, rfl⟩ : ∃ f, fuel = f + 1 := ⟨fuel - 1, by simp [needS] at hf; omega⟩
+      have hne : intChars i ≠ [] := by
+        obtain ⟨c, tl, h, _⟩ := intChars_head i
+        rw [h]; simp
+      exact parseSenValue_tok f ws (intChars i) rest _ hws hne (all_num_notDelim _ (intChars_all_num i)) hr
+        (tokValue_num _ _ (intChars_head i) (classify_intChars i))
+  | .flo t, hj, d, fuel, ws, rest, hws, hf, hr => by
+      obtain ⟨f, rfl⟩ : ∃ f, fuel = f + 1 := ⟨fuel - 1, by simp [needS] at hf; omega⟩
+      simp only [TextOk] at hj
+      obtain ⟨hall, hhead⟩ := validFlo_head _ hj
+      have hne : t.toList ≠ [] := by
+        obtain ⟨c, tl, h, _⟩ := hhead
+        rw [h]; simp
+      have := parseSenValue_tok f ws t.toList rest (flo (String.ofList t.toList)) hws hne (all_num_notDelim _ hall) hr
+        (tokValue_num _ _ hhead (classify_flo _ hj))
+      rw [String_ofList_toList] at this
+      exact this
+  | .time t, hj, d, fuel, ws, rest, hws, hf, hr => by simp [TextOk] at hj
+  | .str s, _, d, fuel, ws, rest, hws, hf, hr => by
+      obtain ⟨f, rfl⟩ : ∃ f, fuel = f + 1 := ⟨fuel - 1, by simp [needS] at hf; omega⟩
+      simp only [writeV, writeStr, List.cons_append, List.append_assoc, List.nil_append, parseSenValue, skipSep_ws_append _ _ hws]
+      rw [skipSep_cons_nonsep _ _ (by decide)]
+      simp [readStr_esc]
+  | .arr [], _, d, fuel, ws, rest, hws, hf, hr => by
+      obtain ⟨f, rfl⟩ : ∃ f, fuel = f + 1 := ⟨fuel - 1, by simp [needS] at hf; omega⟩
+      obtain ⟨g, rfl⟩ : ∃ g, f = g + 1 := ⟨f - 1, by simp [needS, needSL] at hf; omega⟩
+      simp only [writeV, List.cons_append, List.nil_append, parseSenValue, skipSep_ws_append _ _ hws]
+      rw [skipSep_cons_nonsep _ _ (by decide)]
+      simp only [show ('[' == '"') = false by decide, show ('[' == '[') = true by decide, Bool.false_eq_true, if_false, if_true,
+        parseSenElems]
+      rw [skipSep_cons_nonsep _ _ (by decide)]
+      simp
+  | .arr (x :: xs), hj, d, fuel, ws, rest, hws, hf, hr => by
+      obtain ⟨f, rfl⟩ : ∃ f, fuel = f + 1 := ⟨fuel - 1, by simp [needS] at hf; omega⟩
+      simp only [TextOk] at hj
+      simp only [TextOkL, Bool.and_eq_true] at hj
+      have hf' : needSL (x :: xs) ≤ f := by simp only [needS] at hf; omega
+      have hE := parseSenItems_writeV lay hl x xs hj.1 hj.2 d f (lay.nl (d + 1)) rest (all_ws_sep _ (hl.1 (d + 1))) hf'
+      simp only [writeV, List.cons_append, List.append_assoc, parseSenValue, skipSep_ws_append _ _ hws]
+      rw [skipSep_cons_nonsep _ _ (by decide)]
+      simp only [show ('[' == '"') = false by decide, show ('[' == '[') = true by decide, Bool.false_eq_true, if_false, if_true]
+      try simp only [List.append_assoc] at hE
+      simp only [hE]
+  | .obj [], _, d, fuel, ws, rest, hws, hf, hr => by
+      obtain ⟨f, rfl⟩ : ∃ f, fuel = f + 1 := ⟨fuel - 1, by simp [needS] at hf; omega⟩
+      obtain ⟨g, rfl⟩ : ∃ g, f = g + 1 := ⟨f - 1, by simp [needS, needSM] at hf; omega⟩
+      simp only [writeV, List.cons_append, List.nil_append, parseSenValue, skipSep_ws_append _ _ hws]
+      rw [skipSep_cons_nonsep _ _ (by decide)]
+      simp only [show ('{' == '"') = false by decide, show ('{' == '[') = false by decide, show ('{' == '{') = true by decide,
+        Bool.false_eq_true, if_false, if_true, parseSenMembers]
+      rw [skipSep_cons_nonsep _ _ (by decide)]
+      simp [mkMembers]
+  | .obj ((k, v) :: kvs), hj, d, fuel, ws, rest, hws, hf, hr => by
+      obtain ⟨f, rfl⟩ : ∃ f, fuel = f + 1 := ⟨fuel - 1, by simp [needS] at hf; omega⟩
+      simp only [TextOk, Bool.and_eq_true] at hj
+      have hj1 := hj.1
+      simp only [TextOkM, Bool.and_eq_true] at hj1
+      have hf' : needSM ((k, v) :: kvs) ≤ f := by simp only [needS] at hf; omega
+      have hE := parseSenPairs_writeV lay hl k v kvs hj1.1 hj1.2 d f (lay.nl (d + 1)) rest (all_ws_sep _ (hl.1 (d + 1))) hf'
+      simp only [writeV, List.cons_append, List.append_assoc, parseSenValue, skipSep_ws_append _ _ hws]
+      rw [skipSep_cons_nonsep _ _ (by decide)]
+      simp only [show ('{' == '"') = false by decide, show ('{' == '[') = false by decide, show ('{' == '{') = true by decide,
+        Bool.false_eq_true, if_false, if_true]
+      try simp only [List.append_assoc, List.cons_append] at hE
+      simp only [hE, mkMembers_of_distinct _ hj.2]
+termination_by j => sizeOf j
+decreasing_by all_goals (simp_wf; omega)
+/-- the items of a non-empty array from its first item on -/
+theorem parseSenItems_writeV (lay : Layout) (hl : lay.WsOnly) : (x : J) → (xs : List J) → TextOk x = true → TextOkL xs = true →
+    ∀ (d fuel : Nat) (ws rest : List Char), ws.all isSep = true → needSL (x :: xs) ≤ fuel →
+    parseSenElems fuel (ws ++ (writeV lay (d + 1) x ++ (writeRestL lay d xs ++ rest))) = .ok (x :: xs, rest)
+  | x, [], hx, _, d, fuel, ws, rest, hws, hf => by
+      obtain ⟨f, rfl⟩ : ∃ f, fuel = f + 1 := ⟨fuel - 1, by simp [needSL] at hf; omega⟩
+      obtain ⟨g, rfl⟩ : ∃ g, f = g + 1 := ⟨f - 1, by simp [needSL] at hf; omega⟩
+      have hfx : needS x ≤ g + 1 := by simp only [needSL] at hf; omega
+      obtain ⟨c, tl, hc, hcs, hcb⟩ := writeV_head_sen lay (d + 1) x hx
+      have hV := parseSenValue_writeV lay hl x hx (d + 1) (g + 1) [] (writeRestL lay d [] ++ rest) (by simp) hfx (RestDelim_writeRestL lay hl d [] rest)
+      simp only [List.nil_append, writeRestL, List.append_assoc, List.cons_append] at hV
+      simp only [parseSenElems, skipSep_ws_append _ _ hws, writeRestL, List.append_assoc, List.cons_append, List.nil_append]
+      rw [hc] at hV ⊢
+      simp only [List.cons_append] at hV ⊢
+      rw [skipSep_cons_nonsep _ _ hcs]
+      simp only [hcb, Bool.false_eq_true, if_false, hV, skipSep_ws_append _ _ (all_ws_sep _ (hl.1 d))]
+      rw [skipSep_cons_nonsep _ _ (by decide)]
+      simp
+  | x, y :: ys, hx, hxs, d, fuel, ws, rest, hws, hf => by
+      obtain ⟨f, rfl⟩ : ∃ f, fuel = f + 1 := ⟨fuel - 1, by simp [needSL] at hf; omega⟩
+      simp only [TextOkL, Bool.and_eq_true] at hxs
+      have hfx : needS x ≤ f := by simp only [needSL] at hf; omega
+      have hfr : needSL (y :: ys) ≤ f := by simp only [needSL] at hf ⊢; omega
+      obtain ⟨c, tl, hc, hcs, hcb⟩ := writeV_head_sen lay (d + 1) x hx
+      have hV := parseSenValue_writeV lay hl x hx (d + 1) f [] (writeRestL lay d (y :: ys) ++ rest) (by simp) hfx (RestDelim_writeRestL lay hl d _ rest)
+      have hE := parseSenItems_writeV lay hl y ys hxs.1 hxs.2 d f (',' :: lay.nl (d + 1)) rest (all_sep_comma_nl lay hl (d + 1)) hfr
+      simp only [List.nil_append] at hV
+      simp only [parseSenElems, skipSep_ws_append _ _ hws]
+      rw [hc] at hV ⊢
+      simp only [List.cons_append] at hV ⊢
+      rw [skipSep_cons_nonsep _ _ hcs]
+      simp only [hcb, Bool.false_eq_true, if_false, hV]
+      simp only [writeRestL, List.cons_append, List.append_assoc] at hE ⊢
+      simp only [hE]
+termination_by x xs => sizeOf x + sizeOf xs + 1
+decreasing_by all_goals (simp_wf; omega)
+/-- the members of a non-empty object from its first member on -/
+theorem parseSenPairs_writeV (lay : Layout) (hl : lay.WsOnly) : (k : String) → (v : J) → (kvs : Members) → TextOk v = true → TextOkM kvs = true →
+    ∀ (d fuel : Nat) (ws rest : List Char), ws.all isSep = true → needSM ((k, v) :: kvs) ≤ fuel →
+    parseSenMembers fuel (ws ++ (writeStr k ++ (':' :: (lay.colon ++ (writeV lay (d + 1) v ++ (writeRestM lay d kvs ++ rest)))))) =
+      .ok ((k, v) :: kvs, rest)
+  | k, v, [], hv, _, d, fuel, ws, rest, hws, hf => by
+      obtain ⟨f, rfl⟩ : ∃ f, fuel = f + 1 := ⟨fuel - 1, by simp [needSM] at hf; omega⟩
+      obtain ⟨g, rfl⟩ : ∃ g, f = g + 1 := ⟨f - 1, by simp [needSM] at hf; omega⟩
+      have hfx : needS v ≤ g + 1 := by simp only [needSM] at hf; omega
+      have hV := parseSenValue_writeV lay hl v hv (d + 1) (g + 1) lay.colon (writeRestM lay d [] ++ rest) (all_ws_sep _ hl.2) hfx (RestDelim_writeRestM lay hl d [] rest)
+      simp only [writeRestM, List.append_assoc, List.cons_append, List.nil_append] at hV
+      simp only [writeStr, writeRestM, List.cons_append, List.append_assoc, List.nil_append, parseSenMembers, skipSep_ws_append _ _ hws]
+      rw [skipSep_cons_nonsep _ _ (by decide)]
+      simp only [show ('"' == '}') = false by decide, show ('"' == '"') = true by decide, Bool.false_eq_true, if_false, if_true,
+        readStr_esc]
+      rw [skipWs_cons_nonws _ _ (by decide)]
+      simp only [hV, skipSep_ws_append _ _ (all_ws_sep _ (hl.1 d))]
+      rw [skipSep_cons_nonsep _ _ (by decide)]
+      simp [String_ofList_toList]
+  | k, v, (k2, v2) :: kvs, hv, hkvs, d, fuel, ws, rest, hws, hf => by
+      obtain ⟨f, rfl⟩ : ∃ f, fuel = f + 1 := ⟨fuel - 1, by simp [needSM] at hf; omega⟩
+      simp only [TextOkM, Bool.and_eq_true] at hkvs
+      have hfx : needS v ≤ f := by simp only [needSM] at hf; omega
+      have hfr : needSM ((k2, v2) :: kvs) ≤ f := by simp only [needSM] at hf ⊢; omega
+      have hV := parseSenValue_writeV lay hl v hv (d + 1) f lay.colon (writeRestM lay d ((k2, v2) :: kvs) ++ rest) (all_ws_sep _ hl.2) hfx (RestDelim_writeRestM lay hl d _ rest)
+      have hE := parseSenPairs_writeV lay hl k2 v2 kvs hkvs.1 hkvs.2 d f (',' :: lay.nl (d + 1)) rest (all_sep_comma_nl lay hl (d + 1)) hfr
+      simp only [writeStr, List.cons_append, List.append_assoc, List.nil_append, parseSenMembers, skipSep_ws_append _ _ hws]
+      rw [skipSep_cons_nonsep _ _ (by decide)]
+      simp only [show ('"' == '}') = false by decide, show ('"' == '"') = true by decide, Bool.false_eq_true, if_false, if_true,
+        readStr_esc]
+      rw [skipWs_cons_nonws _ _ (by decide)]
+      simp only [hV]
+      simp only [writeRestM, writeStr, List.cons_append, List.append_assoc, List.nil_append] at hE ⊢
+      simp only [hE, String_ofList_toList]
+termination_by k v kvs => sizeOf v + sizeOf kvs + 1
+decreasing_by all_goals (simp_wf; omega)
+end
+
+/-! ### fuel for JSON text read as SEN -/
+
+mutual
+theorem needS_le_writeV (lay : Layout) : (j : J) → TextOk j = true → ∀ d, needS j + 1 ≤ 2 * (writeV lay d j).length
+  | .null, _, d => by simp [needS, writeV]
+  | .bool true, _, d => by simp [needS, writeV]
+  | .bool false, _, d => by simp [needS, writeV]
+  | .int i, _, d => by
+      obtain ⟨c, tl, h, _⟩ := intChars_head i
+      simp only [needS, writeV, h, List.length_cons]; omega
+  | .flo t, hj, d => by
+      simp only [TextOk] at hj
+      obtain ⟨_, c, tl, h, _⟩ := validFlo_head _ hj
+      simp only [needS, writeV, h, List.length_cons]; omega
+  | .str s, _, d => by simp only [needS, writeV, writeStr, List.length_cons, List.length_append]; omega
+  | .time t, hj, d => by simp [TextOk] at hj
+  | .arr [], _, d => by simp [needS, needSL, writeV]
+  | .arr (x :: xs), hj, d => by
+      simp only [TextOk] at hj
+      simp only [TextOkL, Bool.and_eq_true] at hj
+      have h1 := needS_le_writeV lay x hj.1 (d + 1)
+      have h2 := needSL_le_writeRestL lay xs hj.2 d
+      simp only [needS, needSL, writeV, List.length_cons, List.length_append]; omega
+  | .obj [], _, d => by simp [needS, needSM, writeV]
+  | .obj ((k, v) :: kvs), hj, d => by
+      simp only [TextOk, Bool.and_eq_true] at hj
+      have hj1 := hj.1
+      simp only [TextOkM, Bool.and_eq_true] at hj1
+      have h1 := needS_le_writeV lay v hj1.1 (d + 1)
+      have h2 := needSM_le_writeRestM lay kvs hj1.2 d
+      simp only [needS, needSM, writeV, List.length_cons, List.length_append]; omega
+theorem needSL_le_writeRestL (lay : Layout) : (xs : List J) → TextOkL xs = true → ∀ d, needSL xs ≤ 2 * (writeRestL lay d xs).length
+  | [], _, d => by simp only [needSL, writeRestL, List.length_append, List.length_cons, List.length_nil]; omega
+  | x :: xs, hj, d => by
+      simp only [TextOkL, Bool.and_eq_true] at hj
+      have h1 := needS_le_writeV lay x hj.1 (d + 1)
+      have h2 := needSL_le_writeRestL lay xs hj.2 d
+      simp only [needSL, writeRestL, List.length_append, List.length_cons]; omega
+theorem needSM_le_writeRestM (lay : Layout) : (kvs : Members) → TextOkM kvs = true → ∀ d, needSM kvs ≤ 2 * (writeRestM lay d kvs).length
+  | [], _, d => by simp only [needSM, writeRestM, List.length_append, List.length_cons, List.length_nil]; omega
+  | (k, v) :: kvs, hj, d => by
+      simp only [TextOkM, Bool.and_eq_true] at hj
+      have h1 := needS_le_writeV lay v hj.1 (d + 1)
+      have h2 := needSM_le_writeRestM lay kvs hj.2 d
+      simp only [needSM, writeRestM, List.length_append, List.length_cons]; omega
+end
+
+theorem parseSen_write (lay : Layout) (hl : lay.WsOnly) (j : J) (hj : TextOk j = true) :
+    parseSen (write lay j) = .ok j := by
+  unfold parseSen write parseSenChars
+  simp only [String.toList_ofList]
+  have hlen := needS_le_writeV lay j hj 0
+  have := parseSenValue_writeV lay hl j hj 0 (2 * (writeV lay 0 j).length + 1) [] [] (by simp) (by omega) RestDelim_nil
   simp only [List.nil_append, List.append_nil] at this
   simp [this, skipSep]
 
